@@ -6,5 +6,6 @@ CONSTANTS
   StrLen = 3
   FullLen = 0
   RepLen = 0
+  Big = {}
 INVARIANTS RoundTripHolds ShortestWidth OnlyVarRefused EmitValue
 CHECK_DEADLOCK FALSE
